@@ -46,6 +46,11 @@ func (f *Return) Call(s *slip.Scope, args slip.List, depth int) slip.Object {
 	}
 	if 0 < len(args) {
 		rr.Result = slip.EvalArg(s, args, 0, depth+1)
+		switch rr.Result.(type) {
+		case *slip.ReturnResult, *GoTo:
+			// An exit taken while the value is computed comes first.
+			return rr.Result
+		}
 	}
 	return &rr
 }
